@@ -51,6 +51,7 @@ type c07Reload struct {
 	GapUs int    `json:"gap_us"`         // pause before the call
 	ShutErr bool `json:"shut_err,omitempty"` // valid configuration whose OnShutdown callback returns an error
 	Hold    bool `json:"hold,omitempty"`     // a half-sent request is held open on the old instance across the call (drain timeout)
+	Span    int  `json:"span,omitempty"`     // ... and across that many further reload calls before it is completed (slow request in flight across several reloads)
 }
 
 type c07In struct {
@@ -441,6 +442,7 @@ type c07Obs struct {
 	Note     string   `json:"note,omitempty"`
 	StallMs  int64    `json:"longest_scheduler_stall_ms,omitempty"`
 	Drains   int      `json:"drain_timeouts,omitempty"`
+	Spanning int      `json:"held_across_several_reloads,omitempty"`
 	Hooks    []string `json:"hook_census,omitempty"` // names of the event hooks registered after each reload
 	WaitEarly bool    `json:"wait_returned_early,omitempty"`
 	WaitStuck bool    `json:"wait_stuck_after_stop,omitempty"`
@@ -877,6 +879,17 @@ func c07RunLineage(in *c07In) (res Result) {
 		syncBurst(mr)
 	}
 
+	// held requests that stay open across further reloads: (finisher, reloads left)
+	type c07Carry struct {
+		fin  func()
+		left int
+	}
+	var carried []c07Carry
+	defer func() {
+		for _, c := range carried {
+			c.fin()
+		}
+	}()
 	for n1, rl := range in.Reloads {
 		n := n1 + 1
 		if atomic.LoadInt64(&l.timeouts) >= 2 {
@@ -1017,8 +1030,24 @@ func c07RunLineage(in *c07In) (res Result) {
 			hobs = append(hobs, "("+cNatList(c07HookNames(in, n, rl.Slots))+", "+cNat(hf)+", "+cBool(rerr == nil)+", "+cNatList(cen)+")")
 			obs.Hooks = append(obs.Hooks, fmt.Sprintf("%d:%v", n, cen))
 		}
+		{
+			var keep []c07Carry
+			for _, c := range carried {
+				if c.left <= 1 {
+					c.fin()
+				} else {
+					keep = append(keep, c07Carry{c.fin, c.left - 1})
+				}
+			}
+			carried = keep
+		}
 		if finishHeld != nil {
-			finishHeld()
+			if rl.Span > 0 && n1+1 < len(in.Reloads) {
+				carried = append(carried, c07Carry{finishHeld, rl.Span})
+				obs.Spanning++
+			} else {
+				finishHeld()
+			}
 		}
 		l.observe(curSlots, true)
 		if in.Mode == "sync" {
@@ -1030,6 +1059,11 @@ func c07RunLineage(in *c07In) (res Result) {
 			syncBurst(mr)
 		}
 	}
+	// held requests still open (the lineage ended or was cut short first) are completed now
+	for _, c := range carried {
+		c.fin()
+	}
+	carried = nil
 	if in.Mode == "load" {
 		time.Sleep(2 * time.Millisecond)
 	}
@@ -1384,6 +1418,9 @@ func c07Gen(r *Rand, tier string) []interface{} {
 			if r.Chance(65) {
 				in.Reloads[j].Hold = true
 				any = true
+				if r.Chance(40) {
+					in.Reloads[j].Span = 1 + r.Intn(2)
+				}
 			}
 		}
 		if !any {
